@@ -183,7 +183,7 @@ PROPS = {
         "propfile": "PropC11.v",
         "n": {"quick": 300, "thorough": 8000},
         "corr": "policy.PolicyVerifier.VerifyRefFull / VerifyRef / VerifyRefFromEntry vs verify_full / verify_latest / verify_from (World.v)",
-        "rule": 'profile C11 (every policy carries global rules: 1-2 of its own and/or 0-2 per controller for 1-2 controller repositories whose metadata copies sit in the policy tree; threshold 1-3 / block-force-push over matching and non-matching patterns); every history is verified under P and under P minus its global rules and the pair is checked for monotonicity. generated worlds in an in-memory Storer with real ed25519 signatures: an initial policy (root key(s), primary rule file with 2-4 developers, 1-3 rules incl. thresholds 1-3, optionally one delegated rule file, optionally global rules), then 4-21 events from: pushes to main/feature/other signed by authorised / unauthorised / admin / no key (12% force pushes, 10% tree-reusing commits), approvals (reference authorizations signed by subsets of developers, some for other changes or stored at other paths) followed by the push, policy updates (valid evolutions: rule changes, root rotation, threshold raises, global rules added/dropped; one third forbidden ones: unsigned / wrongly signed root, forged or rolled-back rule files, dropped or dangling delegated files, self-signed replacement root), skip annotations (mostly on violating pushes), fix pushes (tree-same as the last good state), staging and propagation entries. Each world is verified in full for main and feature, latest-only for main and from a random earlier entry. non-trivial = >=2 policy states or a rejected verification',
+        "rule": 'profile C11 (every policy carries global rules: 1-2 of its own and/or 0-2 per controller for 1-2 controller repositories whose metadata copies sit in the policy tree; threshold 1-3 / block-force-push over matching and non-matching patterns); every history is verified under P and under P minus its global rules and the pair is checked for monotonicity; a sixth of the cases are tag-reference histories (as in C01) verified as they are and under their policy plus 1-2 global rules, half of them ending in a fully approved entry for a tag object that nobody trusted signed; an eighth are histories of pushes under a branch rule plus a file rule (as in C10, in memory), again verified with and without added global rules. generated worlds in an in-memory Storer with real ed25519 signatures: an initial policy (root key(s), primary rule file with 2-4 developers, 1-3 rules incl. thresholds 1-3, optionally one delegated rule file, optionally global rules), then 4-21 events from: pushes to main/feature/other signed by authorised / unauthorised / admin / no key (12% force pushes, 10% tree-reusing commits), approvals (reference authorizations signed by subsets of developers, some for other changes or stored at other paths) followed by the push, policy updates (valid evolutions: rule changes, root rotation, threshold raises, global rules added/dropped; one third forbidden ones: unsigned / wrongly signed root, forged or rolled-back rule files, dropped or dangling delegated files, self-signed replacement root), skip annotations (mostly on violating pushes), fix pushes (tree-same as the last good state), staging and propagation entries. Each world is verified in full for main and feature, latest-only for main and from a random earlier entry. non-trivial = >=2 policy states or a rejected verification',
         "theorems": ['C11_globals_only_restrict', 'C11_inherited_globals_only_restrict', 'C11_history_level_refuted_K14'],
         "trusted": ["symbolic cryptography; developers' keys are disjoint from root/primary-rule-file keys and from each other in generated worlds (shared keys make the Go map iteration order observable)", 'the harness world builder writes policy and attestation commits directly (bypassing Apply, which would refuse the forbidden states) and the in-memory Storer', 'not modelled: tags, file rules (C10), code-review approvals, the verification of declared controller repositories (inherited global rules are modelled from the controller metadata copies in the policy tree), the persistent cache (C08), hooks', 'error kinds are compared for correspondence; the property is decided on accept/reject and the tip'],
         "assumptions": [],
@@ -219,9 +219,10 @@ PROPS = {
                 "LoadCurrentState(policy) succeeds. non-trivial = >=4 operations. One case in forty (at least 8) is an API sequence on a real "
                 "repository: 4-9 calls of AddRootKey / RemoveRootKey / UpdateRootThreshold(0..3) / SignRoot by keys 1,3,5 (root candidates) or 6 "
                 "(never a root key), interleaved with Apply; after every call the staged root (role keys, threshold, version, signature key ids), "
-                "policy==staging and LoadCurrentState(policy) are read back",
+                "policy==staging and LoadCurrentState(policy) are read back; one API case in three ends with InitializeRoot (real ssh-keygen signer) by a root key "
+                "or an outsider, half of the time after the staging reference was deleted",
         "theorems": ["C12_apply", "C12_refused", "C12_discard", "C12_published_always_loadable", "C12_api_edit_needs_root_signer",
-                     "C12_api_outsider_refused", "C12_api_published_always_loadable"],
+                     "C12_api_outsider_refused", "C12_api_reinit_refused", "C12_api_published_always_loadable"],
         "trusted": [
             "sequences in which staging diverges from policy (ReconcileStaging rewrites history) are skipped and counted",
             "the experimental/gittuf API guard is exercised for the root-role mutators only (rule-file, hook, app, global-rule mutators are not called)",
